@@ -226,9 +226,28 @@ def decode_order_rule(ctx, prog, an, rule, decoder_path, label):
         if src[0] == "call" and src[2] is not None and src[2].npath.endswith("<impl [T]>::iter"):
             inner = lift_arg(sbb, src[3][0])
 
+            def fields_accessor(c):
+                """A crate (trait) method that hands out the template's `fields` (every implementation returns
+                `self.fields`); its name and the trait's name are free."""
+                if c is None or not c.local:
+                    return False
+                method = c.syn_path.rsplit("::", 1)[-1]
+                impls = []
+                if c.trait:
+                    impls = [hb for hp, hb in prog.bodies.items() if hb.parent_impl and (hb.parent_impl.get("trait") or "") == c.trait and hp.endswith("::" + method)]
+                elif c.path in prog.bodies:
+                    impls = [prog.bodies[c.path]]
+                if not impls:
+                    return False
+                for hb in impls:
+                    r = peel(an.local(hb, 0))
+                    if not (r[0] == "field" and r[2] == "fields" and peel(r[1]) == ("arg", 1)):
+                        return False
+                return True
+
             def is_fields(x):
                 x = peel(x)
-                return (x[0] == "field" and x[2] == "fields") or (x[0] == "call" and x[2] is not None and x[2].nsyn.startswith("variable_versions::ipfix::CommonTemplate::"))
+                return (x[0] == "field" and x[2] == "fields") or (x[0] == "call" and fields_accessor(x[2]))
             isf = is_fields(inner)
             if not isf and inner[0] == "arg":
                 # the records parser receives the field list itself (`&[TemplateField]`): every caller must pass the
